@@ -7,6 +7,8 @@
 -/
 import Gedcom.Model.Decoder
 import Gedcom.Generated.DecodeShape
+import Gedcom.Generated.ReadLineProgram
+import Gedcom.Lemmas.ReadLine
 namespace Gedcom.C03
 open Gedcom Gedcom.Dec
 
@@ -238,9 +240,10 @@ example : decode ⟨false, false⟩ [49, 32, 78] = .panic .indentTooLarge := by
     afterTag, isDigit, isWord, SP, AT, LF, CR, decToNat, isRoleTag, tHUSB, tWIFE, tCHIL]
 
 /-- **Obligation on the regenerated control skeleton of the decoder.** The loop of
-    `Decoder.Decode`, `parseLine`, `readLine` and `consumeOptionalBOM` still have, in source order,
+    `Decoder.Decode`, `parseLine` and `consumeOptionalBOM` still have, in source order,
     exactly the conditions (and branch exits: return / continue / break / panic) that the model's
-    `step`, `place`, `parseLine`, `splitLines` and `stripBOM` were written from.  This pins *where*
+    `step`, `place`, `parseLine` and `stripBOM` were written from (`readLine` is translated:
+    `lines_are_the_source_readLine` below).  This pins *where*
     the decoder can return an error, continue a previous value or panic; what each branch computes
     is tied by the correspondence.  decoder.go starts no goroutine, uses no channel and defers no
     call (the model's loop is sequential; a producer/consumer read-ahead would add exits the model
@@ -269,9 +272,24 @@ theorem decode_source_shape :
        "if parts[2] != \"\"",
        "case TagChild, TagHusband, TagWife",
        "if family == nil => return"] ∧
-    Generated.conditionsOfReadLine =
-      ["for", "if err != nil => return", "if b == '\\n' || b == '\\r' => break"] ∧
     Generated.conditionsOfConsumeOptionalBOM = ["if hasBOM"] ∧
     Generated.decoderConcurrency = [] := by decide
+
+/-- **The line reader is the source's.** `Generated.readLineProgram` is translated on every run,
+    clause by clause, from the byte loop of `Decoder.readLine` (error check, stop test, append;
+    `if … { break }` and `switch { case …: return }` spellings alike).  It has the understood
+    shape, its stop bytes are LF and CR, and calling it until the reader reports the end of the
+    input — as the `Decode` loop does, processing the last, unterminated line too — yields
+    exactly the lines `splitLines` gives the model, for every byte string. -/
+theorem lines_are_the_source_readLine (s : Str) :
+    ReadLine.stops Generated.readLineProgram = some [LF, CR] ∧
+    ∀ bs, ReadLine.stops Generated.readLineProgram = some bs →
+      ReadLine.allLines bs (s.length + 1) s = splitLines s := by
+  have h : ReadLine.stops Generated.readLineProgram = some [LF, CR] := by decide
+  refine ⟨h, ?_⟩
+  intro bs hbs
+  rw [h] at hbs
+  cases hbs
+  exact ReadLine.allLines_eq_go (s.length + 1) s (by omega)
 
 end Gedcom.C03
